@@ -219,7 +219,7 @@ fn report_failure(args: &Args, rep: &mut Report, ast: &OpeningHoursExpression, h
 }
 
 pub fn run(args: &Args, rep: &mut Report) {
-    let n = args.cases(50_000, 500_000);
+    let n = args.cases(50_000, 25_000);
     let horizon = if args.thorough() { 60 * 366 } else { 3 * 366 };
     let mut full_walks: i64 = if args.thorough() { 60 } else { 2 };
     let mut st = PointwiseStats::default();
